@@ -439,7 +439,7 @@ class _Done(Exception):
 
 
 def _on_alarm(signum, frame):
-    raise _OpTimeout("the operation did not return within %d s" % OP_TIMEOUT)
+    raise _OpTimeout("the operation did not return within %d s of CPU time" % OP_TIMEOUT)
 
 
 OP_TIMEOUT = 2
@@ -453,14 +453,16 @@ def run_impl(case):
 
     # an implementation that loops for ever (e.g. clear() when discard stops discarding) must end as a
     # reported failure, not as a hung check: every operation runs under an alarm
-    signal.signal(signal.SIGALRM, _on_alarm)
+    # CPU time of this process (ITIMER_VIRTUAL), not wall-clock: on a heavily loaded machine a worker can be
+    # descheduled for seconds, which must not look like a hang
+    signal.signal(signal.SIGVTALRM, _on_alarm)
     try:
         # repeating: an exception raised by the handler inside a finaliser / weakref callback is swallowed by
         # the interpreter, so keep firing until it lands in ordinary code
         return _run_impl(case, mesa, AgentSet,
-                         lambda on=True: signal.setitimer(signal.ITIMER_REAL, OP_TIMEOUT if on else 0, 0.05 if on else 0))
+                         lambda on=True: signal.setitimer(signal.ITIMER_VIRTUAL, OP_TIMEOUT if on else 0, 0.05 if on else 0))
     finally:
-        signal.setitimer(signal.ITIMER_REAL, 0)
+        signal.setitimer(signal.ITIMER_VIRTUAL, 0)
 
 
 def _run_impl(case, mesa, AgentSet, arm):
